@@ -147,7 +147,18 @@ func oneFile(dir string, ver, klen int, vlens []int, tm, base int64, seed int, s
 		pos int64
 	}
 	var recs []rec
-	for i, vl := range vlens {
+	// after the grid: an entirely empty message, key only, value only, entirely empty again
+	// (each follows a message of another shape: writers reuse their buffers)
+	type kv struct{ k, v int }
+	shapes := make([]kv, 0, len(vlens)+4)
+	for _, vl := range vlens {
+		shapes = append(shapes, kv{klen, vl})
+	}
+	if klen <= 300 {
+		shapes = append(shapes, kv{0, 0}, kv{klen, 0}, kv{0, 3}, kv{0, 0})
+	}
+	for i, sh := range shapes {
+		klen, vl := sh.k, sh.v
 		m := message.Message{Offset: base + int64(i), Time: time.UnixMicro(tm).UTC(), Key: fill(klen, seed+i), Value: fill(vl, seed+i+1)}
 		before := w.Size()
 		pos, err := w.Write(m)
